@@ -249,3 +249,41 @@ Example C04_xml_termination_example :
                   (mkmach (init_cfg XData None false) [] [] 0%N) []) = [SSuspend; SSuspend; SSuspend].
 Proof. exact InstTermX.xterm_ex. Qed.
 Print Assumptions C04_xml_termination_example.
+
+(* the XML tokenizer interpreter is TOTAL as well (TokIR/NoPanicX.v, Inst/InstNoPanicX.v): xml's emit_current_tag never
+   switches the state (no condition on the sink) and Tokenizer::end has no assert sites, so the answer of end() is always
+   "done"; every feed entry is done / script pause / encoding indicator or the driver model's pause limit 96 *)
+From HV Require TokIR.NoPanicX Inst.InstNoPanicX.
+
+Theorem C04_xml_tokenizer_total :
+  forall simd ent c1 sk fuel inj chunks s0 last,
+  InstNoPanicX.xml_kind_ok s0 = true ->
+  (InstTermX.xml_fuel (length (concat chunks) + length chunks * (50 * length inj)) <= fuel)%nat -> (4 <= fuel)%nat ->
+  exists rest,
+    snd (drive_flat xml_flavour true xml_table simd ent c1 sk fuel inj chunks
+                    (mkmach (init_cfg s0 last false) [] [] 0%N) []) = SSuspend :: rest /\
+    Forall (fun x => (x = SSuspend \/ x = SScript \/ x = SEncoding) \/ x = SPanic 96) rest.
+Proof. exact InstNoPanicX.xml_tokenizer_total. Qed.
+Print Assumptions C04_xml_tokenizer_total.
+
+Theorem C04_xml_tokenizer_total_no_pauses :
+  forall simd ent c1 sk fuel inj chunks s0 last,
+  sk_quiet sk = true -> InstNoPanicX.xml_kind_ok s0 = true ->
+  (InstTermX.xml_fuel (length (concat chunks)) <= fuel)%nat -> (4 <= fuel)%nat ->
+  Forall (eq SSuspend) (snd (drive_flat xml_flavour true xml_table simd ent c1 sk fuel inj chunks
+                                        (mkmach (init_cfg s0 last false) [] [] 0%N) [])).
+Proof. exact InstNoPanicX.xml_tokenizer_total_quiet. Qed.
+Print Assumptions C04_xml_tokenizer_total_no_pauses.
+
+Theorem C04_xml_states_closed_and_charref_safe :
+  (forall s, state_ok xml_flavour xml_table s = true) /\ forallb InstNoPanicX.xml_kind_ok xml_states = true.
+Proof. exact (conj InstNoPanicX.xml_state_ok_all InstNoPanicX.xml_kind_ok_listed). Qed.
+Print Assumptions C04_xml_states_closed_and_charref_safe.
+
+Example C04_xml_total_example :
+  InstNoPanicX.xml_kind_ok XData = true /\
+  snd (drive_flat xml_flavour true xml_table ([], [], []) (fun _ => None) (fun _ => None) InstNoPanicX.xnp_sk
+                  (InstTermX.xml_fuel 17) [] InstNoPanicX.xnp_input
+                  (mkmach (init_cfg XData None false) [] [] 0%N) []) = [SSuspend; SSuspend; SSuspend; SScript].
+Proof. exact InstNoPanicX.xnp_ex. Qed.
+Print Assumptions C04_xml_total_example.
